@@ -26,7 +26,18 @@ OPTIONS = {
     "hunk-header-style": ("locFrag", []),
     "line-numbers-plus-style": ("2", ["--line-numbers", "--line-numbers-right-format", "<{np}>"]),
     "line-numbers-minus-style": ("2", ["--line-numbers", "--line-numbers-left-format", "<{nm}>", "--line-numbers-right-format", ""]),
+    # the style goes with the number ({nm} / {np}), not with the field it is put into: the old-file number in the right field, the
+    # new-file number in the left one, next to a distinguishable style for the other number
+    "line-numbers-minus-style@right": ("2", ["--line-numbers", "--line-numbers-left-format", "", "--line-numbers-right-format", "<{nm}>",
+                                             "--line-numbers-plus-style", "italic 201 202"]),
+    "line-numbers-plus-style@left": ("2", ["--line-numbers", "--line-numbers-left-format", "<{np}>", "--line-numbers-right-format", "",
+                                           "--line-numbers-minus-style", "italic 201 202"]),
+    "line-numbers-minus-style@both": ("2", ["--line-numbers", "--line-numbers-left-format", "[{np}]<{nm}>", "--line-numbers-right-format", "",
+                                            "--line-numbers-plus-style", "italic 201 202"]),
 }
+# colour names beyond the sixteen of the terminal (CSS names): direct colours by another spelling
+CSS = {"orange": (255, 165, 0), "teal": (0, 128, 128), "salmon": (250, 128, 114), "navy": (0, 0, 128), "rebeccapurple": (102, 51, 153),
+       "gold": (255, 215, 0), "hotpink": (255, 105, 180)}
 HEADER_STYLES = {"file-style", "commit-style", "hunk-header-style"}
 BLAME_INPUT = b"ea82f2d0 (Dan Davison       2021-08-22 18:20:19 -0700 120) locBlame code\n"
 BLAME_OPTS = {"blame-code-style": "locBlame", "blame-separator-style": "│"}
@@ -83,6 +94,8 @@ def lex_word(w):
         return {"k": "color", "v": [BRIGHT[x.replace("-", "")]]}
     if x == "normal":
         return {"k": "color", "v": []}
+    if x in CSS:
+        return {"k": "color", "v": list(CSS[x])}
     if x == "syntax":
         return {"k": "color", "v": [1000]}
     if re.fullmatch(r"\d{1,3}", x) and int(x) < 256:
@@ -101,7 +114,7 @@ def observe(opt, style, truecolor):
         r = core.run_delta(BASE + extra + ["--true-color", truecolor, f"--{opt}", style], BLAME_INPUT, allow_usage_error=True)
     else:
         tok, extra = OPTIONS[opt]
-        r = core.run_delta(BASE + extra + ["--true-color", truecolor, f"--{opt}", style], INPUT, allow_usage_error=True)
+        r = core.run_delta(BASE + extra + ["--true-color", truecolor, f"--{opt.split('@')[0]}", style], INPUT, allow_usage_error=True)
     if r.code != 0:
         return r, None
     for b in r.out.split(b"\n"):
@@ -198,6 +211,7 @@ def observe_g(opt, ws, layout, theme, by, truecolor="always"):
 
 def shown(opt, style, truecolor):
     tok, extra = OPTIONS.get(opt, ("", []))
+    opt = opt.split("@")[0]
     r = core.run_delta(BASE + extra + ["--true-color", truecolor, f"--{opt}", style, "--show-config"], b"",
                        allow_usage_error=True)
     for line in lexer.strip_ansi(r.out).decode("utf-8", "replace").split("\n"):
@@ -233,6 +247,12 @@ def run(tier):
         opt = r2.choice(list(OPTIONS))
         attr = r2.choice([a for a in ATTRS if a != "underline" or opt not in HEADER_STYLES])
         jobs.append(([hx, hy] + ([attr] if i % 2 else []), opt, "always" if i % 3 else "never", i % 8 == 0))
+    # CSS colour names in either slot, both colour depths (in 256-colour mode they come out as palette colours like any direct colour)
+    for i, (nm, other) in enumerate(itertools.product(CSS, ["", "normal", "17", "teal", "bold"])):
+        for tc in ("always", "never"):
+            ws = [w for w in ((nm, other) if i % 2 else (other, nm)) if w]
+            if ws[0] == "bold" or len(ws) == 1 or i % 2:
+                jobs.append((ws, list(OPTIONS)[i % len(OPTIONS)], tc, i % 4 == 0))
     # styles that --show-config does not list (blame): both colour depths, direct colours
     for i in range(40 if tier == "quick" else 400):
         r2 = random.Random(core.seed() * 12007 + i)
